@@ -46,9 +46,10 @@ const char *CODEN[] = {"0", "1", "2", "size-1", "size", "size+1", "cap-1", "cap"
 // rare because with a constructor it costs up to 10^6 callbacks.
 const uint8_t CODEW[NCODES] = {12, 12, 12, 16, 16, 20, 12, 14, 20, 70,
                                1, 5, 5, 5, 6, 6, 6, 6, 6, 6};
-// index arguments (at, write): "rnd" resolves to an index in range (v % size) and
-// the values at or beyond size are the rationed ones (size, size+1, cap, cap+1 and
-// the ten large values: 46/256 = 18 %, plus 0/1/2/cap-1 when the vector is that small)
+// index arguments (at, write): 0, 1, 2, size-1 and "rnd" resolve to an index in
+// range (value % size; a counted no-op on an empty vector) and the values at or
+// beyond size are the rationed ones: size, size+1, cap, cap+1 and the ten large
+// values (46/256 = 18 %) plus cap-1 (3 %) when that is not below size
 const uint8_t CODEW_IDX[NCODES] = {20, 16, 14, 30, 10, 6, 8, 6, 4, 122,
                                    2, 2, 2, 2, 2, 2, 2, 2, 2, 2};
 uint8_t CODEMAP[2][256];        // [0] size arguments, [1] index arguments
@@ -350,11 +351,14 @@ void op_reserve(Slot &s, size_t n)
                "reserve(%zu) that %s changed the vector: capacity %zu -> %zu, block %zu -> %zu bytes%s", n,
                n <= c0 ? "does not exceed the capacity" : "could not be satisfied", c0, m->cap, R0, R1,
                m->data == d0 ? "" : ", data pointer changed");
-        if (n > c0 && failed) CNT("class.reserve_failed");
+        if (n > c0 && failed && !g_in_twin) CNT("class.reserve_failed");
     } else {
         VCHECK(m->cap >= n, "reserve.grew", "reserve(%zu) with no failed allocation left the capacity at %zu", n, m->cap);
-        if (m->data != d0 && m->size > 0) { CNT("class.realloc_moved"); cx.saw_moved = true; }
-        CNT("class.reserve_grew");
+        if (g_in_twin) { /* class counters describe the main objects */ }
+        else {
+            if (m->data != d0 && m->size > 0) { CNT("class.realloc_moved"); cx.saw_moved = true; }
+            CNT("class.reserve_grew");
+        }
     }
     check_content(s, "reserve");
 }
@@ -411,7 +415,8 @@ bool op_resize(Slot &s, size_t n)
             }
         }
     }
-    if (grow) {
+    if (g_in_twin) { /* class counters describe the main objects */ }
+    else if (grow) {
         CNT("class.resize_grew");
         if (m->data != d0 && s0 > 0) { CNT("class.realloc_moved"); cx.saw_moved = true; }
     } else if (n < s0) CNT("class.resize_shrunk");
@@ -591,7 +596,16 @@ void step(int op, uint8_t sel, uint8_t codeb, uint16_t v)
     bool idx_arg = op == AT || op == WRITE;
     int code = CODEMAP[idx_arg][codeb];
     size_t n = eval_code(code, *m, v);
-    if (idx_arg && code == RND && m->size) n = v % m->size;
+    if (idx_arg && (code == K0 || code == K1 || code == K2 || code == SZ_M1 || code == RND)) {
+        // the ordinary index codes mean an element that exists (resolved by construction);
+        // indexes at or beyond size come from the rationed codes only
+        if (m->size == 0) {
+            CNT("noop.index_empty");
+            TRACE("V%d.%s(%s) noop (empty vector)", vi, OPN[op], CODEN[code]);
+            return;
+        }
+        n = (code == RND ? (size_t)v : n) % m->size;
+    }
     size_t s0 = m->size, c0 = m->cap;
     g_cur_op = OPN[op];
     if (g_replay_mode == 1) TRACE("> V%d.%s arg %s=%zu (size %zu cap %zu)", vi, OPN[op], CODEN[code], n, s0, c0);
